@@ -268,8 +268,9 @@ theorem mixed_epoch_exact (M : Matrix ρ δ F) (z : δ) (ra rb : δ → F) (c : 
 
 /-- the probabilistic half of the mixed-epoch clause — for a minimal qualified set and `∅ ≠ B ⊊ S`
 the correction term is a non-zero linear form in the fresh randomness `r_b − r_a`, hence vanishes
-with probability `1/|F|` — is outside the model (no probability space is modelled); the driver
-checks the non-zero linear form (`Epoch.weightOn`) and the inequality on every emitted pair. -/
+with probability `1/|F|` — as a count: the form vanishes on exactly `|F|ⁿ / |F|` of the `|F|ⁿ`
+points.  Proved in `Props/C06Count.lean` (`mixed_epoch_negligible`, `mixed_epoch_coincidence_count`);
+the driver checks the non-zero linear form (`Epoch.weightOn`) and the inequality on every emitted pair. -/
 def mixed_epoch_negligible_statement (F : Type) [Field F] [Fintype F] [DecidableEq F] : Prop :=
   ∀ (n : ℕ) (w : Fin n → F), w ≠ 0 →
     (Finset.univ.filter fun x : Fin n → F => ∑ k, w k * x k = 0).card * Fintype.card F
